@@ -21,6 +21,7 @@ import (
 	"github.com/go-faster/yaml"
 	"github.com/ogen-go/ogen"
 	"github.com/ogen-go/ogen/jsonpointer"
+	"github.com/ogen-go/ogen/jsonschema"
 	"github.com/ogen-go/ogen/location"
 	"github.com/ogen-go/ogen/openapi"
 	"github.com/ogen-go/ogen/openapi/parser"
@@ -412,6 +413,95 @@ func judge(doc string, root *yaml.Node, p string) (cl string, k kase, lenientOut
 	return "", k, false, hit
 }
 
+// resolverSequences: jsonschema.RootResolver is one object per document that answers every reference
+// into it.  Over a document whose member names read like escapes of one another (c%d, c%25d, e^f,
+// e%5Ef, a, %41, a~1b, a/b ...) every ordered pair and triple of references (plain and fragment
+// spellings, escaped minimally and fully) is resolved on ONE resolver: each answer must be the member
+// the reference evaluator designates for that reference alone, whatever was asked before.
+func resolverSequences(r *vf.Run, thorough bool) {
+	members := []string{"a", "%41", "c%d", "c%25d", "e^f", "e%5Ef", "a/b", "a~1b", "m~n", "m~0n", "", "%", "%25", "\u00e9", "%C3%A9"}
+	defs := map[string]any{}
+	for _, m := range members {
+		defs[m] = map[string]any{"description": "member<" + m + ">"}
+	}
+	data, _ := json.Marshal(map[string]any{"definitions": defs})
+	var root yaml.Node
+	if err := yaml.Unmarshal(data, &root); err != nil {
+		vf.Fatal("resolverSequences document: %v", err)
+	}
+	esc := func(tok string) string { return strings.ReplaceAll(strings.ReplaceAll(tok, "~", "~0"), "/", "~1") }
+	var refs []string
+	seen := map[string]bool{}
+	add := func(x string) {
+		if !seen[x] {
+			seen[x] = true
+			refs = append(refs, x)
+		}
+	}
+	for _, m := range members {
+		e := esc(m)
+		add("/definitions/" + e)                                                  // plain
+		add("#/definitions/" + strings.ReplaceAll(url.PathEscape(e), "+", "%2B")) // fragment, minimal escapes
+		var full strings.Builder
+		for i := 0; i < len(e); i++ {
+			fmt.Fprintf(&full, "%%%02X", e[i])
+		}
+		add("#/definitions/" + full.String()) // fragment, everything escaped
+		if !strings.ContainsAny(e, " ") {
+			add("#/definitions/" + e) // the text of the plain pointer behind a '#': another reference whenever it holds a '%'
+		}
+	}
+	want := func(rf string) string {
+		n, found, inDomain, _ := ref(rf, &root)
+		if !inDomain || !found {
+			return "(no node)"
+		}
+		var rs struct {
+			Description string `yaml:"description"`
+		}
+		_ = n.Decode(&rs)
+		return rs.Description
+	}
+	got := func(res *jsonschema.RootResolver, rf string) (out string) {
+		defer func() {
+			if p := recover(); p != nil {
+				out = fmt.Sprint("panic: ", p)
+			}
+		}()
+		rs, err := res.ResolveReference(rf)
+		if err != nil || rs == nil {
+			return "(no node)"
+		}
+		return rs.Description
+	}
+	var n int64
+	run := func(seq []string) {
+		n++
+		res := jsonschema.NewRootResolver(&root)
+		for i, rf := range seq {
+			if g, w := got(res, rf), want(rf); g != w {
+				r.Violation(map[string]string{"class": "resolver-answer-depends-on-earlier-references", "position": fmt.Sprint(i + 1)}, len(strings.Join(seq, "")),
+					map[string]any{"references_in_order": seq, "reference": rf, "resolved": g, "designated": w, "document": string(data)})
+				return
+			}
+		}
+	}
+	for _, a := range refs {
+		run([]string{a})
+		for _, b := range refs {
+			run([]string{a, b})
+			if thorough {
+				for _, c := range refs {
+					run([]string{a, b, c})
+				}
+			}
+		}
+	}
+	r.Eval(n)
+	r.NontrivialN(n)
+	r.Set("resolver_reference_sequences", n)
+}
+
 // ---------- references of a document: the parser's resolution of $ref ----------
 
 // docRefs: an OpenAPI document whose schema components nest schemas under members and keywords that
@@ -566,6 +656,7 @@ func main() {
 		r.ReplayCase(&k)
 		if k.Doc == "" { // a case of the document-level sub-check: the one document is checked again
 			docRefs(r)
+			resolverSequences(r, r.Thorough())
 			r.Finish("")
 		}
 		var root yaml.Node
@@ -811,6 +902,7 @@ func main() {
 		r.Set("index_sweep_pairs", sweepN)
 	}
 	docRefs(r)
+	resolverSequences(r, r.Thorough())
 	r.Set("documents", len(docs))
 	r.Set("outside_oracle_lenient_tilde", lenientN)
 	r.Set("url_reference_strings", urlRefs)
